@@ -6,27 +6,10 @@ import tcpcl_corr as TC
 import tcpcl_suite as TS
 
 
-def build(chk):
+def large_backpressure(chk, count):
+    ''' Messages longer than one stream chunk (10240 octets) under back-pressure: short writes then full writes. '''
     recs = []
-    nruns = 30 if chk.quick() else 400
-    for idx in range(nruns):
-        runner = TS.gen_coop(chk.rng, nops=chk.rng.choice([40, 90, 160]), full_io=(idx % 4 == 0))
-        drained = (idx % 2 == 0)
-        if drained:
-            TC.drain(runner)
-        recs.append(TS.finish(runner, 'coop', dict(drained=drained)))
-    # zero-length and one-octet bundles, many segments (always present)
-    for (datas, seg) in (([b'', b'x', b''], 3), ([bytes(range(40))], 1), ([b'ab', b'', bytes(range(9))], 4)):
-        runner = TC.Runner(cfg_a=dict(segment_size_tx_initial=seg), cfg_b=dict(segment_size_mru=max(seg, 2)))
-        runner.apply(('start', 'A'))
-        runner.apply(('start', 'B'))
-        TC.drain(runner)
-        for data in datas:
-            runner.apply(('send', 'A', ('lit', data)))
-        TC.drain(runner, accept=chk.rng.choice([1, 5, 1 << 30]), nread=chk.rng.choice([1, 4, 1 << 30]))
-        recs.append(TS.finish(runner, 'boundary', dict(drained=True)))
-    # messages longer than one stream chunk (10240 octets) under back-pressure: short writes then full writes
-    for idx in range(3 if chk.quick() else 40):
+    for idx in range(count):
         rng = chk.rng
         runner = TC.Runner(cfg_a=dict(segment_size_tx_initial=102400), cfg_b=dict(segment_size_tx_initial=102400))
         runner.apply(('start', 'A'))
@@ -52,6 +35,39 @@ def build(chk):
     return recs
 
 
+def search(chk):
+    ''' More of the expensive schedule classes, oracle only. '''
+    recs = large_backpressure(chk, 60)
+    for idx in range(200):
+        runner = TS.gen_coop(chk.rng, nops=chk.rng.choice([90, 160]), full_io=(idx % 4 == 0))
+        TC.drain(runner)
+        recs.append(TS.finish(runner, 'coop', dict(drained=True)))
+    return recs
+
+
+def build(chk):
+    recs = []
+    nruns = 30 if chk.quick() else 400
+    for idx in range(nruns):
+        runner = TS.gen_coop(chk.rng, nops=chk.rng.choice([40, 90, 160]), full_io=(idx % 4 == 0))
+        drained = (idx % 2 == 0)
+        if drained:
+            TC.drain(runner)
+        recs.append(TS.finish(runner, 'coop', dict(drained=drained)))
+    # zero-length and one-octet bundles, many segments (always present)
+    for (datas, seg) in (([b'', b'x', b''], 3), ([bytes(range(40))], 1), ([b'ab', b'', bytes(range(9))], 4)):
+        runner = TC.Runner(cfg_a=dict(segment_size_tx_initial=seg), cfg_b=dict(segment_size_mru=max(seg, 2)))
+        runner.apply(('start', 'A'))
+        runner.apply(('start', 'B'))
+        TC.drain(runner)
+        for data in datas:
+            runner.apply(('send', 'A', ('lit', data)))
+        TC.drain(runner, accept=chk.rng.choice([1, 5, 1 << 30]), nread=chk.rng.choice([1, 4, 1 << 30]))
+        recs.append(TS.finish(runner, 'boundary', dict(drained=True)))
+    recs += large_backpressure(chk, 3 if chk.quick() else 40)
+    return recs
+
+
 def evaluate(chk, recs):
     for rec in recs:
         nsend = sum(len(rec.queued[e]) for e in 'AB')
@@ -74,4 +90,5 @@ if __name__ == '__main__':
                       'reads/writes of 1,2,3,7,64 or all octets, user sends at random positions, segment sizes 1..102400 and MRUs 1..10MiB; '
                       'half the runs are drained to quiescence by a fair scheduler (then every queued bundle must have arrived); '
                       'fixed boundary runs with zero-length, one-octet and many-segment bundles; '
-                      'non-trivial = at least one bundle queued and one segment on the wire; distinct by the full op list')
+                      'non-trivial = at least one bundle queued and one segment on the wire; distinct by the full op list',
+                 search=search)
